@@ -298,7 +298,15 @@ ReadComps(s, at, acc, hasInstr) ==
      IN IF Bit(fl, 5) = 1 THEN ReadComps(s, at + total, Append(acc, comp), hi)
         ELSE [ok |-> TRUE, at |-> at + total, comps |-> Append(acc, comp), hasInstr |-> hi]
 
-\* a composite glyph MUST carry an explicit bounding box
+\* a composite glyph MUST carry an explicit bounding box.
+\* Step 3a of the recommendation: "If any of the component flags has FLAG_WE_HAVE_INSTRUCTIONS set, read the
+\* instructionLength from the glyph stream and that many bytes from the instruction stream" - ANY component:
+\* neither OpenType nor WOFF2 say which component record carries the bit (font tools put it on the last one,
+\* hand-edited and merged fonts do not).  ReadComps therefore ORs bit 8 over every component it passes
+\* (`hasInstr`), whatever its position; CompInstrAnywhere below is the lemma that the position does not matter.
+\* The same holds for every other per-component property: the width and signedness of the arguments
+\* (bits 0, 1), the transform kind (bits 3, 6, 7) and the remaining flag bits belong to THEIR component only,
+\* and MORE_COMPONENTS (bit 5) of a component alone says whether another one follows.
 DecComposite(S, c, bit) ==
   LET rc == ReadComps(S.co, c.co, <<>>, FALSE) IN
   IF ~rc.ok \/ bit # 1 \/ ~Has(S.bb, c.bb, 8) THEN DecFail(c) ELSE
